@@ -175,6 +175,43 @@ def generate():
     if [ast.unparse(s) for s in b] != norm("d = defer.Deferred()\nself.transaction.addTransaction(d, tid)\nreturn d"):
         tw.fail(fn, "_buildResponse has an unrecognised shape")
 
+    # ---- the unit filter of the framers (base class helper used by processIncomingPacket)
+    fr = Src("pymodbus/framer/__init__.py")
+    fn = fr.func("ModbusFramer", "_validate_unit_id")
+    b = body(fn)
+    ok = (len(b) == 1 and isinstance(b[0], ast.If) and ast.unparse(b[0].test) == "single"
+          and [ast.unparse(x) for x in b[0].body] == ["return True"] and len(b[0].orelse) == 2
+          and isinstance(b[0].orelse[0], ast.If) and not b[0].orelse[0].orelse
+          and [ast.unparse(x) for x in b[0].orelse[0].body] == ["return True"]
+          and ast.unparse(b[0].orelse[1]) == "return self._header['uid'] in units")
+    if not ok:
+        fr.fail(fn, "_validate_unit_id has an unrecognised shape")
+    test = b[0].orelse[0].test
+    parts = test.values if isinstance(test, ast.BoolOp) and isinstance(test.op, ast.Or) else [test]
+    wild, sides = [], set()
+    for c in parts:
+        if not (isinstance(c, ast.Compare) and len(c.ops) == 1):
+            fr.fail(c, "_validate_unit_id: unrecognised wildcard test")
+        left, op, right = ast.unparse(c.left), c.ops[0], c.comparators[0]
+        if isinstance(op, ast.In) and ast.unparse(right) == "units":
+            wild.append(core.const_int(fr, c.left))          # <const> in units
+            sides.add("expected")
+        elif isinstance(op, ast.In) and left == "self._header['uid']" and isinstance(right, (ast.Tuple, ast.List)):
+            wild += [core.const_int(fr, e) for e in right.elts]   # frame's uid in (<const>, ...)
+            sides.add("frame")
+        elif isinstance(op, ast.Eq) and left == "self._header['uid']":
+            wild.append(core.const_int(fr, right))            # frame's uid == <const>
+            sides.add("frame")
+        else:
+            fr.fail(c, "_validate_unit_id: unrecognised wildcard test")
+    if len(sides) != 1:
+        fr.fail(fn, "_validate_unit_id: wildcard tests on both the expected units and the frame")
+    D["ac_unit_wild"] = "[" + "; ".join(str(x) for x in wild) + "]"
+    D["ac_unit_wild_on_frame"] = sides == {"frame"}
+    for rel, cls in (("pymodbus/framer/socket_framer.py", "ModbusSocketFramer"), ("pymodbus/framer/rtu_framer.py", "ModbusRtuFramer")):
+        if Src(rel).has_func(cls, "_validate_unit_id"):
+            fr.fail(fn, "%s overrides _validate_unit_id" % cls)
+
     # subclasses used for TCP / serial must not override the modelled methods
     for c in ("ModbusTcpClientProtocol", "ModbusSerClientProtocol"):
         for name in ("connectionMade", "connectionLost", "dataReceived", "execute", "_handleResponse", "_buildResponse"):
@@ -188,7 +225,7 @@ def generate():
         return str(x)
     fields = ["ac_tid_init", "ac_tid_inc", "ac_tid_mask", "ac_init_connected", "ac_made_connected",
               "ac_build_guard", "ac_build_exn", "ac_handle_by_reply_tid", "ac_lost_clears", "ac_lost_clear_first",
-              "ac_lost_loop", "ac_lost_exn", "ac_unit_default"]
+              "ac_lost_loop", "ac_lost_exn", "ac_unit_default", "ac_unit_wild", "ac_unit_wild_on_frame"]
     out = [
         "(* GENERATED by /verif/gen/gen_async.py from /repo's current source on every run. Do not edit. *)",
         "From PM.theories Require Import Base AsyncClient.",
